@@ -440,7 +440,8 @@ def gen(rng, tier):
 def record_raised(seed, kinds=None, per_kind=3000, deadline_s=10.0, tier="quick"):
     """{kind: {qualified exception class: number of corrupted files on which the loader's parser entry point raised
     it}} over seeded corruptions of the seed documents; only files the independent reference parser REJECTS are
-    counted (the property's domain).  Bounded by `per_kind` files and `deadline_s` seconds per kind."""
+    counted (the property's domain).  Bounded by `per_kind` files and `deadline_s` seconds per kind.  For every class the
+    shortest file that raised it is kept ("examples"): the C20 check runs each through the real command line."""
     import random, time
     out = {}
     valid = _valid_docs()
@@ -448,6 +449,7 @@ def record_raised(seed, kinds=None, per_kind=3000, deadline_s=10.0, tier="quick"
         rng = random.Random("raised/%s/%s" % (kind, seed))
         t_end = time.time() + deadline_s
         seen = {}
+        examples = {}
         tried = rejected = 0
         docs = [d for k, d in valid if k == kind]
         rounds = 0
@@ -468,16 +470,31 @@ def record_raised(seed, kinds=None, per_kind=3000, deadline_s=10.0, tier="quick"
                         e = entry_error(kind, bad)
                         if e is not None:
                             seen[e] = seen.get(e, 0) + 1
+                            if e not in examples or len(bad) < len(examples[e][1]):
+                                examples[e] = (label, bad)
                     if tried >= per_kind or time.time() > t_end:
                         done = True
                         break
                 if done:
                     break
-        out[kind] = {"classes": dict(sorted(seen.items())), "tried": tried, "rejected": rejected}
+        out[kind] = {"classes": dict(sorted(seen.items())), "tried": tried, "rejected": rejected,
+                     "examples": {c: {"label": l, "bad": base64.b64encode(b).decode()} for c, (l, b) in sorted(examples.items())}}
     return out
 
 
 # ---- implementation side ---------------------------------------------------------------------------------
+
+def witness_cases(recorded):
+    """one faults case per (type, exception class) the recorded fuzz saw: the shortest file that raised it"""
+    valid = _valid_docs()
+    cases = []
+    for kind, r in sorted(recorded.items()):
+        good = [d for k, d in valid if k == kind][0]
+        for cls, ex in sorted((r.get("examples") or {}).items()):
+            cases.append({"kind": kind, "label": "recorded:%s:%s" % (cls.rsplit(".", 1)[-1], ex["label"]), "flags": [],
+                          "bad": ex["bad"], "good": base64.b64encode(good).decode()})
+    return cases
+
 
 def impl(case):
     from harness import clirun
